@@ -117,6 +117,14 @@ def sync_stream(rng, n, viols, stats, cases):
                 for j in range(rng.randint(0, 3)):
                     conn.execute(rc_t.insert().values(id=10000 + j, name='CUSTOM_N%d' % j))
                     conn.execute(tr_t.insert().values(name='CUSTOM_T%d' % j))
+                stray = []
+                if k % 3 == 1:
+                    # out-of-band damage: standard traits whose stored name changed case (another name on a case-sensitive
+                    # database: the standard one is missing and must come back; the stray row is not the service's doing)
+                    for name in rng.sample(sorted(os_traits.get_traits()), 3):
+                        odd = name.capitalize() if rng.random() < 0.5 else name.lower()
+                        conn.execute(tr_t.update().where(tr_t.c.name == name).values(name=odd))
+                        stray.append(odd)
         finally:
             impl.TL.observe = True
         before = app.raw_dump()
@@ -128,6 +136,8 @@ def sync_stream(rng, n, viols, stats, cases):
             stats['evaluations'] += 1
             stats['distinct'].add(('sync', k, rep, len(before['resource_classes']), len(before['traits'])))
             for msg in names_oracle(after):
+                if any(repr(o) in msg for o in stray):
+                    continue
                 viols.append(({'kind': 'sync', 'round': k, 'repeat': rep}, 'after start-up sync: ' + msg))
             cust_b = sorted((r['id'], r['name']) for r in before['resource_classes'] if r['name'].startswith('CUSTOM_'))
             cust_a = sorted((r['id'], r['name']) for r in after['resource_classes'] if r['name'].startswith('CUSTOM_'))
